@@ -186,7 +186,7 @@ def cases_for(tier):
                     out.append({"route": "graph", "n": n, "edges": es, "seg": False, "aslist": True})
     # structured mid-sized graphs (cycles sharing a vertex, degree-4 trees, isolated vertices, cubic graphs), all 2^n patterns
     for name, n, es in graphref.zoo():
-        if tier == "quick" and n > 7:
+        if tier == "quick" and n > 7 and "merge-order" not in name:
             continue
         for seg in (False, True):
             out.append({"route": "graph", "n": n, "edges": es, "seg": seg, "name": name})
